@@ -118,6 +118,18 @@ Theorem c18_crash_forgets : forall (A : fsapi) (fs : FS A) es1 es2,
           es2 (snd (hrun A hc es2)).
 Proof. exact crash_forgets_lemma. Qed.
 
+(* Completeness of a late drain: in any state, once every in-flight entry is
+   due, `sync` followed by as many iterations as there are in-flight + ready
+   entries yields that many completions and leaves nothing behind - whatever
+   the shuffle arguments.  With c18_exactly_once: after such a drain every
+   accepted submission has been yielded exactly once. *)
+Theorem c18_drain_completes : forall (A : fsapi) (r : ring) (fs : FS A) now orders,
+  Forall (fun c => due now c = true) (inflight r) ->
+  length orders = (length (inflight r) + length (ready r))%nat ->
+  let '(r', _, os) := rrun A r fs (Sync now :: map (Next now) orders) in
+  inflight r' = [] /\ ready r' = [] /\ length (yields os) = length orders.
+Proof. exact drain_after_sync. Qed.
+
 (* The shuffle argument reaches every permutation of a batch with distinct
    user_data, and is always a permutation. *)
 Theorem c18_shuffle_complete :
@@ -174,5 +186,6 @@ Print Assumptions c18_push_full.
 Print Assumptions c18_unsupported_flag.
 Print Assumptions c18_closed_file.
 Print Assumptions c18_crash_forgets.
+Print Assumptions c18_drain_completes.
 Print Assumptions c18_shuffle_complete.
 Print Assumptions c18_nonvacuous.
